@@ -138,6 +138,8 @@ def variants(tier):
                         (3, datetime.datetime(2000, 1, 1, 0, 30, 0)), (3, datetime.datetime(2001, 12, 1, 10, 0, 0)),
                         (3, datetime.datetime(2007, 6, 30, 23, 0, 0))):
             v.append(dict(fmt=fmt, epoch=ep, archive=False, forced=False, start_override=str(day)))
+        # TIROS-N: spacecraft code 1 with a start date before 1982 (the code is shared with NOAA-11); the header keeps the file's byte
+        v.append(dict(fmt=fmt, epoch=1, archive=False, forced=False, sc="tirosn", start_override="1980-06-01 10:00:00"))
         v.append(dict(fmt=fmt, epoch=3, archive=True, forced=False, blank_tbm=True))     # TBM header whose name field is blank (42 NUL + 2 spaces)
     # scan line numbers using the top bit of the (unsigned, KLM) field: legal for LAC/FRAC passes (< 65535)
     v.append(dict(fmt="lac_klm", version=5, archive=False, first=32765))
@@ -202,7 +204,7 @@ def run(res, tier, seed):
             kw = {}
         else:
             ep = var["epoch"]
-            sc = POD_SC_BY_EPOCH[ep]
+            sc = var.get("sc") or POD_SC_BY_EPOCH[ep]
             start = EPOCH_DATE[ep]
             if var.get("start_override"):
                 start = datetime.datetime.strptime(var["start_override"], "%Y-%m-%d %H:%M:%S")
